@@ -21,7 +21,7 @@ fn zone_list() -> &'static Vec<Arc<Zone>> {
     static U: std::sync::OnceLock<Vec<Arc<Zone>>> = std::sync::OnceLock::new();
     U.get_or_init(|| {
         let mut v = vec![];
-        for l in ["file:America/New_York", "file:Europe/London", "file:Asia/Kolkata", "file:Asia/Kathmandu", "file:Africa/Monrovia", "file:Australia/Lord_Howe", "file:Pacific/Apia", "file:America/St_Johns", "file:Europe/Amsterdam", "utc", "fixed:0", "fixed:3600", "fixed:-34200", "fixed:20700", "fixed:93599", "fixed:-93599", "fixed:45296", "fixed:-2821", "posix:EST5EDT,M3.2.0,M11.1.0"] {
+        for l in ["file:America/New_York", "file:Europe/London", "file:Asia/Kolkata", "file:Asia/Kathmandu", "file:Africa/Monrovia", "file:Australia/Lord_Howe", "file:Pacific/Apia", "file:America/St_Johns", "file:Europe/Amsterdam", "file:Etc/GMT+5", "file:Etc/GMT-14", "file:Etc/GMT+12", "file:America/Port-au-Prince", "file:America/Argentina/ComodRivadavia", "file:America/North_Dakota/New_Salem", "file:EST5EDT", "file:GMT+0", "file:GMT-0", "file:Etc/GMT0", "file:W-SU", "file:NZ-CHAT", "utc", "fixed:0", "fixed:3600", "fixed:-34200", "fixed:20700", "fixed:93599", "fixed:-93599", "fixed:45296", "fixed:-2821", "posix:EST5EDT,M3.2.0,M11.1.0"] {
             if let Some(z) = zones::by_label(l) {
                 v.push(z);
             }
